@@ -119,3 +119,93 @@ func init() {
 			r.Floor("R-MAPORDER", 15)
 		}})
 }
+
+func init() {
+	register(&PropSpec{ID: "C13",
+		Explain: "Decides, site by site, that no instruction reachable from reading arbitrary text (ReadDiff*/ReadPatch*/ReadMerge*/ReadJson*/ReadYaml*/NewPath/NewJsonNode) or from any Patch can panic: every index, slice, make, unchecked type assertion, explicit panic, integer division and call to a panicking library function in that call-graph closure is an obligation discharged by a named schema — S1 the Go compiler's prove pass removed the bounds check, S2 guard facts (branch-edge dataflow over len() and integer terms, closed enumerations, infeasible-edge pruning) imply the bounds, S3 range/len shapes, S5 closed path-element kinds for the panicking type-switch defaults, S6 marshal-cannot-fail (raw() type sets + finiteness of every float that becomes a number), S7 sort callbacks — or reported as an unproved may-panic site. R-CLIERR: neither main package panics or log.Fatals; every error reaches exit status 2.",
+		NotDecided:  "Diff/diffRest and the renderers (their index safety rests on cursor invariants), stack or memory exhaustion, panics inside yaml.v2/encoding/json/jsonpointer, nil JsonNodes injected through the Go API.",
+		Assumptions: append([]string{"the compiler's bounds-check elimination is semantics-preserving (a check it removed cannot fail)", "maps held by jsonObject values are non-nil (constructor invariant)"}, commonAssumptions...),
+		Run: func(w *World, r *Report) {
+			rulePanic(w, r, w.Pkg(pathV2))
+			runCLI(w, r, "nopanic", "exit")
+			r.Floor("R-PANIC", 150)
+			r.Floor("R-CLI/E3", 40)
+		}})
+}
+
+func runCLI(w *World, r *Report, parts ...string) {
+	has := func(p string) bool {
+		for _, q := range parts {
+			if q == p {
+				return true
+			}
+		}
+		return false
+	}
+	for _, c := range []*cli{newCLI(w, pathMainV2, "v2jd"), newCLI(w, pathTop, "top")} {
+		if has("exit") {
+			c.ruleExit(r)
+		}
+		if has("havediff") {
+			c.ruleHaveDiff(r)
+		}
+		if has("output") {
+			c.ruleOutput(r)
+		}
+		if has("flags") {
+			c.ruleFlags(r)
+		}
+		if has("inputs") {
+			c.ruleInputs(r)
+		}
+		if has("modes") {
+			c.ruleModes(r)
+		}
+		if has("plumbing") {
+			c.rulePlumbing(r)
+		}
+		if has("nopanic") {
+			c.ruleNoPanic(r)
+		}
+		if has("optfwd") {
+			ruleOptFwdFrom(w, r, c.pkg, w.Pkg(pathV2), "v2", "Option", nil, nil)
+			if c.tag == "top" {
+				ruleOptFwdFrom(w, r, c.pkg, w.Pkg(pathLib), "lib", "Metadata", nil, nil)
+			}
+		}
+	}
+	if has("havediff") {
+		ruleSentinels(w, r, w.Pkg(pathV2), "v2")
+		ruleSentinels(w, r, w.Pkg(pathLib), "lib")
+	}
+}
+
+func init() {
+	register(&PropSpec{ID: "C14",
+		Explain: "Decides the command-line contract as control- and data-flow facts of both `package main`s (v2/jd and the top-level binary, incl. its -v2=false routines): E every os.Exit argument is a constant 0/1/2, exit 1 lies exactly on the edge where the diff routine's boolean is true and the other edge exits 0, every error returned by any call reaches a nil test whose failing side exits 2 (or is returned), the exit helpers always exit 2; D the diff routine's boolean is true exactly on the edges `rendered output != the library's empty rendering` and the library returns those sentinels for an empty diff; O in every print routine one value is printed with fmt.Print when -o is empty and written with WriteFile(*output, []byte(s)) otherwise, nothing else reaches stdout, and that value is exactly what Render/RenderPatch/RenderMerge/Json/Yaml returned; F the flag→option table; I readFile/readStdin return the bytes read untransformed and can only fail on a read error, FILE1/FILE2/stdin reach the documented parameters; M for every documented value of -f and -t exactly the documented reader/renderer is reachable and any other value is an error, -yaml selects the document codec; P FILE1→diff reader, FILE2→document reader, Diff(a,b) order; options given to the CLI are the options handed to the library (R-OPTFWD(cli)).",
+		NotDecided:  "That `jd -p` of the output reproduces b (that is C01/C02 behaviour), YAML content fidelity, the GitHub-action wrapper and the git diff driver protocol (exempt by name).",
+		Assumptions: commonAssumptions,
+		Run: func(w *World, r *Report) {
+			runCLI(w, r, "exit", "havediff", "output", "flags", "inputs", "modes", "plumbing", "optfwd")
+			r.Floor("R-CLI/E", 30)
+			r.Floor("R-CLI/E3", 40)
+			r.Floor("R-CLI/O", 18)
+			r.Floor("R-CLI/M", 40)
+		}})
+}
+
+func init() {
+	register(&PropSpec{ID: "C05",
+		Explain: "Decides structural necessary conditions of `Diff is empty iff Equals`: (R-OPTFWD, diff side) every comparison a diff function makes — Equals, hashCode, ident, dispatch, nested diff — receives the caller's own options, so Diff decides under the options Equals is asked about; (R-CONGRUENCE) an option kind consulted by a type's Equals is consulted by its hashCode, because list diff matches elements by hashCode; (R-HASHDOM restricted to the scalar types that can be list elements) hash inputs carry a type tag, else two unequal elements are matched as common; (R-NOEMPTY) accumulated hunks are emitted only if non-empty and the scalar diff returns the empty diff exactly on the Equals-true edge; CLI half: exit status 1 lies exactly on the edge where the diff routine reports a difference, that boolean is `rendered output != the library's empty rendering`, the sentinels agree with the library, and the CLI hands its options to Diff unchanged.",
+		NotDecided:  "Whether a non-empty merge diff can render as the sentinel {} (it can: `1` vs `{}`), how tolerance and hashing could be made to agree, digest collisions.",
+		Assumptions: commonAssumptions,
+		Run: func(w *World, r *Report) {
+			v2 := w.Pkg(pathV2)
+			nt := newNodeTypes(w, v2, "v2")
+			ruleOptFwd(w, r, v2, "v2", "Option", diffSide, nil)
+			ruleCongruence(w, r, nt)
+			ruleHashDom(w, r, nt, map[string]bool{"jsonString": true, "jsonNumber": true, "jsonBool": true, "jsonNull": true, "jsonList": true, "jsonObject": true})
+			runCLI(w, r, "exit", "havediff", "optfwd")
+			r.Floor("R-OPTFWD", 40)
+		}})
+}
